@@ -1252,7 +1252,7 @@ where
         // compute the final pointer
         let final_ptr = unsafe { dst_ptr.add(new_len) };
 
-        let _ = slices.fold(dst_ptr, |dst_ptr, slice| {
+        let end_ptr = slices.fold(dst_ptr, |dst_ptr, slice| {
             let slice = slice.as_ref();
             let len = slice.len();
             let end_ptr = unsafe { dst_ptr.add(len) };
@@ -1262,6 +1262,8 @@ where
                 end_ptr
             }
         });
+        // every byte up to `new_len` must have been written
+        assert!(end_ptr == final_ptr, "slices changed during concat");
 
         unsafe { new.set_len(new_len) };
         debug_assert_eq!(final_ptr.cast_const(), new.as_slice().as_ptr_range().end);
@@ -1404,7 +1406,7 @@ where
         // SAFETY: `new_len` is the length of raw
         let final_ptr = unsafe { dst_ptr.add(new_len) };
 
-        if let Some(first) = iter.next() {
+        let end_ptr = if let Some(first) = iter.next() {
             let first = first.as_ref();
             let len = first.len();
 
@@ -1414,7 +1416,7 @@ where
                 ptr::copy_nonoverlapping(first.as_ptr(), dst_ptr, len);
             }
 
-            let _ = iter.fold(end_ptr, |mut dst_ptr, slice| {
+            iter.fold(end_ptr, |mut dst_ptr, slice| {
                 let end_ptr = unsafe { dst_ptr.add(sep_len) };
                 assert!(end_ptr <= final_ptr, "slices changed during concat");
                 unsafe {
@@ -1430,8 +1432,12 @@ where
                     ptr::copy_nonoverlapping(slice.as_ptr(), dst_ptr, len);
                 }
                 end_ptr
-            });
-        }
+            })
+        } else {
+            dst_ptr
+        };
+        // every byte up to `new_len` must have been written
+        assert!(end_ptr == final_ptr, "slices changed during concat");
 
         unsafe { new.set_len(new_len) };
         debug_assert_eq!(final_ptr.cast_const(), new.as_slice().as_ptr_range().end);
